@@ -2134,7 +2134,10 @@ void compress_function_tables () {
             {
               /* Woops.  Fix things up a bit */
               cftp->first_defined = (function_index_t)(f_def = f_ov + i);
-              cftp->num_compressed = (unsigned short)i;
+              /* readers take first_defined - num_compressed as the number of index bytes in use (now i) */
+              cftp->num_compressed = (unsigned short)f_ov;
+              /* every entry from the new f_def on is stored verbatim */
+              n_def = n_tot - f_def;
               for (j = i; j < n_ov; j++)
                 cftp->index[j] = 255;
               j = 255;
